@@ -67,9 +67,9 @@ class InvalidCommand(Command):
         if not self.command_name:
             return b'Command not given.'
         elif not self.command_type:
-            return b'%b: Unknown command.' % (self.command_name, )
+            return b'Unknown command: %b' % (self.command_name, )
         else:
-            return b'%b: Invalid arguments.' % (self.command_name, )
+            return b'Invalid arguments: %b' % (self.command_name, )
 
     @property
     def command_name(self) -> bytes | None:
